@@ -4,6 +4,7 @@ import (
 	"fmt"
 	"time"
 
+	"github.com/tikv/client-go/v2/tikvrpc"
 	"github.com/tikv/client-go/v2/verifrt/sched"
 	"github.com/tikv/client-go/v2/verifrt/txnh"
 )
@@ -35,6 +36,20 @@ func ExploredRecovery(thorough bool, keys []string) []ExploredRecoveryScenario {
 						Progs: [][]txnh.Program{{{Mode: m, Ops: ops}}}}
 					sc.SetupFn = func(s *txnh.TxnScenario) { started = false }
 					sc.MenuFn = func(s *txnh.TxnScenario, e *sched.Event) []sched.Dev {
+						if e.Actor != 0 && started && e.Kind == sched.KRPC {
+							// the recovering reader: a region split right before one of its status-check /
+							// resolve RPCs (its region cache is then stale: EpochNotMatch, batches are regrouped)
+							req, _ := e.Payload.(*tikvrpc.Request)
+							if req != nil && req.Type == tikvrpc.CmdCheckSecondaryLocks && len(lo.Splits) == 0 {
+								var ds []sched.Dev
+								for _, k := range []string{"c"} {
+									k := k
+									ds = append(ds, sched.Dev{Name: "split@" + k, Kind: txnh.DevHook, Arg: func() { s.W.B.SplitAt([]byte(k)) }})
+								}
+								return ds
+							}
+							return nil
+						}
 						if e.Actor != 0 || s.W.Crashed(0) {
 							return nil
 						}
